@@ -15,6 +15,7 @@ from coco.b09.elements import (
     BasicFunctionalExpression,
     BasicGoStatements,
     BasicHbuffStatement,
+    HexLiteral,
     BasicJoystkExpression,
     BasicInputStatement,
     BasicLine,
@@ -425,8 +426,12 @@ class BasicEmptyDataElementVisitor(BasicConstructVisitor):
 class BasicReadStatementPatcherVisitor(BasicConstructVisitor):
     def visit_data_statement(self, statement: BasicDataStatement):
         exp: AbstractBasicExpression
-        for exp in statement.exp_list.exp_list:
-            if not isinstance(exp.literal, str):
+        for idx, exp in enumerate(statement.exp_list.exp_list):
+            if isinstance(exp, HexLiteral):
+                statement.exp_list.exp_list[idx] = BasicLiteral(
+                    f"${hex(exp.literal)[2:].upper()}", is_str_expr=True
+                )
+            elif not isinstance(exp.literal, str):
                 exp.literal = str(exp.literal)
 
     def visit_read_statement(self, statement: BasicReadStatement):
